@@ -196,6 +196,9 @@ func cmdCheck(args []string) int {
 			}
 			n++
 			total++
+			if os.Getenv("GOVC_SLOW") != "" && !strings.Contains(o.Solver, "(incremental)") {
+				fmt.Printf("SLOW %s %s %.1fs %s | %s\n", o.Name, o.Status, o.TimeS, o.Solver, strings.ReplaceAll(o.Output, "\n", " "))
+			}
 			if o.Status == "proved" {
 				ok++
 				discharged++
